@@ -275,6 +275,245 @@ Proof.
 Qed.
 
 (* ------------------------------------------------------------------------------------------------ *)
+(* InsWantChild, NEW separator choice: the first separator is only ever lowered to the key             *)
+(*   sep' = if index =? 0 then (if ltb key sep then key else sep) else sep                             *)
+(* (variants of GIa1_Local.child_facts/child_nosplit/child_split, GIa1_Blocks.ins_child_blk and         *)
+(*  ins_child_prep above, which speak about the OLD choice via `smallest child`)                        *)
+(* ------------------------------------------------------------------------------------------------ *)
+Section ChildN.
+Variables (order : nat) (b : option K * option K) (d : nat) (pre post : list (K * tree)) (s : K) (c : tree) (k : K).
+Hypothesis Hok : sub_ok order b (S d) (Node (pre ++ (s, c) :: post)).
+Hypothesis Hk : rng b k.
+Hypothesis Hidx : 0 < length pre -> ltb k s = false.
+Hypothesis Hpost : Forall (fun e : K * tree => ltb k (fst e) = true) post.
+Variable sep' : K.
+Hypothesis Hsep : sep' = if length pre =? 0 then (if ltb k s then k else s) else s.
+
+Let hi' := hi_of post (snd b).
+
+Lemma child_facts_n :
+  sub_ok order (Some s, hi') d c /\ rng b s /\ (pre = [] \/ sep' = s) /\
+  ltb k sep' = false /\ lt_hi ltb k hi' = true /\
+  Forall (fun x => ltb x sep' = false) (allkeys c) /\
+  rng (fst b, hi') sep' /\
+  Forall (rng (fst b, hi')) (allkeys c) /\
+  (forall sm, smallest c = Ok sm -> ltb sm sep' = false).
+Proof.
+  destruct (frame_down K V ltb HS order b (S d) pre s c post Hok) as (d' & Ed & Hc & Hrs & Hss & Hs').
+  inversion Ed; subst d'. fold hi' in Hc.
+  pose proof (frame_sep_hi K V ltb HS order b (S d) pre s c post Hok) as Hshi. fold hi' in Hshi.
+  destruct Hc as (Hco & Hcr & Hcb & Hcc).
+  assert (Hcs : Forall (fun x => ltb x s = false) (allkeys c)).
+  { eapply Forall_impl; [|exact Hcr]. intros x [Hx _]. simpl in Hx. apply negb_true_iff in Hx. exact Hx. }
+  assert (Hkhi : lt_hi ltb k hi' = true).
+  { subst hi'. destruct post as [|[s' c'] post']; [apply Hk|]. cbn [hi_of lt_hi]. inversion Hpost; assumption. }
+  assert (Hcrng : Forall (rng (fst b, hi')) (allkeys c)).
+  { eapply Forall_impl; [|exact Hcr]. intros x [Hx1 Hx2]. cbn [fst snd] in *. split; [|exact Hx2].
+    simpl in Hx1. apply negb_true_iff in Hx1. eapply (ge_lo_trans K ltb HS); [exact Hx1|apply Hrs]. }
+  assert (Hsame : sep' = s -> (pre = [] \/ sep' = s) -> ltb k s = false ->
+    (pre = [] \/ sep' = s) /\ ltb k sep' = false /\ lt_hi ltb k hi' = true /\
+    Forall (fun x => ltb x sep' = false) (allkeys c) /\ rng (fst b, hi') sep' /\
+    Forall (rng (fst b, hi')) (allkeys c) /\ (forall sm, smallest c = Ok sm -> ltb sm sep' = false)).
+  { intros E Hp Hks. rewrite E. rewrite E in Hp.
+    split; [exact Hp|]. split; [exact Hks|]. split; [exact Hkhi|]. split; [exact Hcs|]. split; [|split].
+    - split; [apply Hrs|exact Hshi].
+    - exact Hcrng.
+    - intros sm' E'. rewrite Forall_forall in Hcs. apply Hcs. now apply (smallest_in K V). }
+  split; [repeat split; assumption|]. split; [exact Hrs|].
+  destruct (length pre =? 0) eqn:E.
+  - apply Nat.eqb_eq in E. destruct pre; [|discriminate].
+    destruct (ltb k s) eqn:Ek.
+    + subst sep'. split; [now left|].
+      assert (Hck : Forall (fun x => ltb x k = false) (allkeys c)).
+      { eapply Forall_impl; [|exact Hcs]. intros x Hx. cbn beta in Hx.
+        destruct (ltb x k) eqn:Exk; auto. rewrite (trans K ltb HS _ _ _ Exk Ek) in Hx. discriminate. }
+      split; [apply (irrefl K ltb HS)|]. split; [exact Hkhi|]. split; [exact Hck|]. split; [|split].
+      * split; [apply Hk|exact Hkhi].
+      * exact Hcrng.
+      * intros sm' E'. rewrite Forall_forall in Hck. apply Hck. now apply (smallest_in K V).
+    + apply Hsame; [exact Hsep|now left|reflexivity].
+  - apply Nat.eqb_neq in E. apply Hsame; [exact Hsep|now right|apply Hidx; lia].
+Qed.
+
+(* no split: only the separator may change *)
+Lemma child_nosplit_n :
+  sub_ok order b (S d) (Node (pre ++ (sep', c) :: post)) /\ rng (Some sep', hi') k.
+Proof.
+  destruct child_facts_n as (Hc & Hrs & Hp & Hks & Hkhi & Hcs & Hsr & Hcr & _).
+  destruct Hc as (Hco & _ & Hcb & Hcc).
+  split; [|split; [simpl; rewrite Hks; reflexivity|exact Hkhi]].
+  apply (node_replace K V ltb HS order b d pre s c post sep' c []); auto.
+  - repeat constructor.
+  - simpl. split; [exact Hcs|tauto].
+  - simpl. tauto.
+  - simpl. tauto.
+  - simpl. tauto.
+  - cbn [flat_map fst snd]. rewrite app_nil_r. constructor; assumption.
+  - destruct Hok as (_ & _ & _ & Hcap). apply (cap_node K V) in Hcap. destruct Hcap as [Hl _].
+    clear - Hl. cbn [count] in Hl. rewrite !app_length in *. cbn [length app] in *. lia.
+Qed.
+
+(* split: the right half becomes the next entry *)
+Lemma child_split_n l r rs :
+  2 <= order -> Nat.even order = true -> length (pre ++ (s, c) :: post) < order ->
+  maybe_split order c = Some (l, r) -> smallest r = Ok rs ->
+  sub_ok order b (S d) (Node (pre ++ (sep', l) :: (rs, r) :: post)) /\
+  count l < order /\ count r < order /\
+  (if ltb k rs then rng (Some sep', Some rs) k else rng (Some rs, hi') k).
+Proof.
+  intros H2 Hev Hlen Hm Hrs.
+  destruct child_facts_n as (Hc & Hrss & Hp & Hks & Hkhi & Hcs & Hsr & Hcr & Hsm).
+  assert (Hc' : sub_ok order (fst b, hi') d c).
+  { destruct Hc as (A1 & _ & A3 & A4). repeat split; assumption. }
+  destruct (split_ok K V ltb HS order _ d c l r H2 Hev Hm Hc')
+    as (Hl & Hr & Cl & Cr & Hh1 & Hh2 & Esm & Hak & [ls Els] & (rs' & Ers & Hlrs & Hrrs & Hrsr)).
+  rewrite Hrs in Ers. inversion Ers; subst rs'; clear Ers.
+  destruct Hl as (Hlo & Hlr & Hlb & Hlc). destruct Hr as (Hro & Hrr & Hrb & Hrc).
+  rewrite Hak in Hcs. apply Forall_app in Hcs. destruct Hcs as [Hcsl Hcsr].
+  assert (Hseprs : ltb sep' rs = true).
+  { rewrite Esm in Els. pose proof (Hsm ls Els) as H1. rewrite <- Esm in Els.
+    pose proof (smallest_in K V l ls Els) as Hin. rewrite Forall_forall in Hlrs. specialize (Hlrs ls Hin).
+    eapply (lelt K ltb HS); eauto. }
+  split; [|split; [lia|split; [lia|]]].
+  - change (pre ++ (sep', l) :: (rs, r) :: post) with (pre ++ ((sep', l) :: [(rs, r)]) ++ post).
+    apply (node_replace K V ltb HS order b d pre s c post sep' l [(rs, r)]); auto.
+    + cbn [map fst]. repeat constructor. exact Hseprs.
+    + cbn [seps_ok]. split; [exact Hcsl|]. split; [exact Hlrs|]. split; [exact Hrrs|tauto].
+    + simpl. tauto.
+    + simpl. tauto.
+    + simpl. tauto.
+    + cbn [flat_map fst snd]. rewrite app_nil_r. constructor; [exact Hsr|].
+      apply Forall_app. split; [exact Hlr|]. constructor; [exact Hrsr|exact Hrr].
+    + clear - Hlen. rewrite !app_length in *. cbn [length app] in *. lia.
+  - destruct (ltb k rs) eqn:Ekr.
+    + split; simpl; [rewrite Hks; reflexivity|exact Ekr].
+    + split; [simpl; rewrite Ekr; reflexivity|exact Hkhi].
+Qed.
+
+End ChildN.
+
+(* the InsWantChild block of the new model (literally the body of that case of Conc.blk) *)
+Definition ins_child_blk_n (order : nat) (o : cop) (p c : id) (index : nat) (t : itree) l0 fr tm0 : res out :=
+  let key := key_of o in
+  match Conc.find p t, Conc.find c t with
+  | Some (INode pi cs), Some child =>
+    '(sep, _) <- get_nth index cs ;;
+    sep' <- Ok (if index =? 0 then (if ltb key sep then key else sep) else sep) ;;
+    match isplit order fr child with
+    | None =>
+      t' <- upd p (fun _ => Ok (INode pi (set_nth index (sep', child) cs))) t ;;
+      ins_descend ltb o c t' (unlock p l0) fr tm0
+    | Some (lft, rgt) =>
+      rs <- ismallest rgt ;;
+      t' <- upd p (fun _ => Ok (INode pi (ins_nth (index + 1) (rs, rgt) (set_nth index (sep', lft) cs)))) t ;;
+      if ltb key rs then ins_descend ltb o c t' (unlock p l0) (S fr) tm0
+      else mk t' l0 (S fr) tm0 (InsWantSplitRight o p c fr) []
+    end
+  | _, _ => Panic PIndex end.
+
+Lemma ins_child_prep_n order (o : cop) p c index (t : itree) l0 fr tm0 (out : out) :
+  2 <= order -> Nat.even order = true ->
+  shape order t -> NoDup (ids t) -> Forall (fun i => i < fr) (ids t) ->
+  pc_ok_b ltb order t (InsWantChild o p c index) = true ->
+  ins_child_blk_n order o p c index t l0 fr tm0 = Ok out ->
+  (exists t' fr', prep order o c t t' /\ ins_descend ltb o c t' (unlock p l0) fr' tm0 = Ok out) \/
+  ins_eff o c t out.
+Proof.
+  intros H2 Hev Hsh Hnd Hlt Hpc H. unfold ins_child_blk_n in H. cbn [pc_ok_b] in Hpc.
+  destruct (Conc.find p t) as [[?|pi cs]|] eqn:Hfp; try discriminate Hpc.
+  apply andb_true_iff in Hpc. destruct Hpc as [Hpc Hrange].
+  apply andb_true_iff in Hpc. destruct Hpc as [Hpc Hnth].
+  apply andb_true_iff in Hpc. destruct Hpc as [Hlen Hsearch].
+  apply Nat.ltb_lt in Hlen.
+  destruct (search_le ltb (key_of o) (map fst cs)) as [ix|] eqn:Hse; [|discriminate Hsearch].
+  simpl in Hsearch. apply Nat.eqb_eq in Hsearch. subst ix.
+  destruct (nth_error cs index) as [[s0 ch]|] eqn:Hn; [|discriminate Hnth]. apply Nat.eqb_eq in Hnth.
+  destruct (nth_error_split cs index Hn) as (pre & post & -> & Hlpre).
+  assert (Hfc : Conc.find c t = Some ch).
+  { subst c. eapply FrameRel.find_child; eauto. apply in_or_app; right; left; reflexivity. }
+  rewrite Hfc in H.
+  destruct (find_in_range K V ltb p t _ fr (key_of o) Hnd Hlt Hfp Hrange) as (C & -> & Hw & Hp & Hk).
+  cbn [nid] in Hp. subst pi.
+  rewrite <- Hlpre in H. rewrite get_nth_app in H. cbn [bind] in H.
+  remember (if length pre =? 0 then if ltb (key_of o) s0 then key_of o else s0 else s0) as sep' eqn:Esep in H.
+  assert (Esep' : sep' = if length (erase_cs pre) =? 0 then (if ltb (key_of o) s0 then key_of o else s0) else s0).
+  { rewrite erase_cs_length. exact Esep. }
+  assert (Hupd : forall cs2, upd p (fun _ => Ok (INode p cs2)) (plug C (INode p (pre ++ (s0, ch) :: post)))
+                             = Ok (plug C (INode p cs2))).
+  { intros cs2. apply (upd_plug_self K V C _ fr _ Hw). }
+  destruct (shape_ctx K V ltb HS order C _ Hsh) as (d0 & Hok & Hrep).
+  rewrite erase_node, erase_cs_app, erase_cs_cons in Hok.
+  destruct (frame_down K V ltb HS order _ d0 _ _ _ _ Hok) as (d & -> & Hokc & _).
+  assert (Ha : asc ltb (map fst (erase_cs pre ++ (s0, erase_ids ch) :: erase_cs post))) by apply Hok.
+  assert (Hne : erase_cs pre ++ (s0, erase_ids ch) :: erase_cs post <> []) by (destruct (erase_cs pre); discriminate).
+  destruct (search_le_split K ltb HS (key_of o) _ Ha Hne)
+    as (ix & pre' & s' & c' & post' & Hs' & Hsplit & Hl' & _ & Hpost' & Hidx').
+  rewrite <- erase_cs_cons, <- erase_cs_app, erase_cs_fst, Hse in Hs'. inversion Hs'; subst ix; clear Hs'.
+  destruct (app_cons_inj _ _ _ _ _ _ Hsplit) as (<- & E1 & <-); [rewrite erase_cs_length; lia|].
+  inversion E1; subst s' c'; clear E1 Hsplit.
+  assert (Hidx : 0 < length (erase_cs pre) -> ltb (key_of o) s0 = false).
+  { rewrite erase_cs_length. intros Hpos. apply Hidx'. lia. }
+  assert (Hcapc : icap order ch) by apply Hokc.
+  destruct (isplit order fr ch) as [[lft rgt]|] eqn:Hisp.
+  - (* split *)
+    destruct (maybe_split order (erase_ids ch)) as [[el er]|] eqn:Esp;
+      [|rewrite (isplit_none K V order fr ch Esp) in Hisp; discriminate Hisp].
+    destruct (isplit_some K V order fr ch el er Hev Hcapc Esp)
+      as (lft' & rgt' & Hisp' & Hel & Her & Hnl & Hnr & Hperm & Hlk & Hcl & Hcr).
+    rewrite Hisp in Hisp'. inversion Hisp'; subst lft' rgt'; clear Hisp'. subst el er.
+    destruct (ismallest rgt) as [rs|] eqn:Ers; [|discriminate H]. cbn [bind] in H.
+    rewrite set_nth_app, ins_nth_app1, Hupd in H. cbn [bind] in H.
+    assert (Ers' : smallest (erase_ids rgt) = Ok rs) by (rewrite ismallest_erase; exact Ers).
+    assert (Hlen' : length (erase_cs pre ++ (s0, erase_ids ch) :: erase_cs post) < order).
+    { rewrite <- erase_cs_cons, <- erase_cs_app, erase_cs_length. exact Hlen. }
+    destruct (child_split_n order _ d _ _ _ _ _ Hok Hk Hidx Hpost' sep' Esep' _ _ rs H2 Hev Hlen' Esp Ers')
+      as (Hok2 & Hcl2 & Hcr2 & Hrng).
+    set (N2 := INode p (pre ++ (sep', lft) :: (rs, rgt) :: post)) in *.
+    assert (HwN : wfc C N2 (S fr)).
+    { eapply (wfc_replace K V C _ N2 fr (S fr) [fr]); [exact Hw| |repeat constructor; simpl; tauto| |lia].
+      - unfold N2. rewrite !ids_node, !ids_list_app, !ids_list_cons.
+        generalize (ids_list pre) (ids_list post) (ids lft) (ids rgt) (ids ch) Hperm.
+        intros a b d1 d2 d3 Hp. perm_lia.
+      - repeat constructor; lia. }
+    assert (Hsh2 : shape order (plug C N2)).
+    { apply Hrep.
+      - unfold N2. rewrite erase_node, erase_cs_app, !erase_cs_cons. exact Hok2.
+      - unfold N2. rewrite !links_node, !links_list_app, !links_list_cons.
+        rewrite (app_assoc (leaf_links lft)). apply links_equiv_ctx. exact Hlk. }
+    destruct (isplit_leaves order fr ch lft rgt Hev (icap_count K V order ch Hcapc) Hisp) as [Hents Hleaves].
+    destruct (replace_mid C p pre post [(s0, ch)] [(sep', lft); (rs, rgt)] c) as [Hrm1 Hrm2].
+    { rewrite !leaves_list_cons. cbn [leaves_list flat_map]. rewrite !app_nil_r, flat_map_app, <- !ents_leaves.
+      symmetry. exact Hents. }
+    { intros lf Hin Hne2. rewrite !leaves_list_cons in *. cbn [leaves_list flat_map] in *. rewrite app_nil_r in *.
+      apply Hleaves; [exact Hin|]. rewrite Hnth. exact Hne2. }
+    cbn [app] in Hrm1, Hrm2. fold N2 in Hrm1, Hrm2.
+    destruct (ltb (key_of o) rs) eqn:Elt.
+    + assert (Hwl : wfc (mkcf p pre sep' ((rs, rgt) :: post) :: C) lft (S fr)) by (apply wfc_node; exact HwN).
+      left. exists (plug C N2), (S fr). split; [|exact H].
+      split; [exact Hrm1|]. split; [exact Hrm2|].
+      exists (mkcf p pre sep' ((rs, rgt) :: post) :: C), lft, (S fr).
+      split; [reflexivity|]. split; [congruence|]. split; [exact Hsh2|]. split; [exact Hwl|].
+      cbn [cbounds csep cpost mkcf hi_of]. exact Hrng.
+    + unfold mk in H. inversion H; subst; clear H. right. apply IE_same; cbn [otr opc oev ph]; auto; discriminate.
+  - (* no split *)
+    rewrite set_nth_app, Hupd in H. cbn [bind] in H.
+    destruct (child_nosplit_n order _ d _ _ _ _ _ Hok Hk Hidx Hpost' sep' Esep') as (Hok2 & Hrng).
+    assert (Hsh2 : shape order (plug C (INode p (pre ++ (sep', ch) :: post)))).
+    { apply Hrep.
+      - rewrite erase_node, erase_cs_app, !erase_cs_cons. exact Hok2.
+      - rewrite !links_node, !links_list_app, !links_list_cons. apply links_equiv_refl. }
+    assert (Hwc : wfc (mkcf p pre sep' post :: C) ch fr).
+    { apply wfc_node. eapply wfc_same; [exact Hw|]. apply ids_sep_irrel. }
+    destruct (replace_mid C p pre post [(s0, ch)] [(sep', ch)] c) as [Hrm1 Hrm2]; [reflexivity|auto|].
+    cbn [app] in Hrm1, Hrm2.
+    left. exists (plug C (INode p (pre ++ (sep', ch) :: post))), fr. split; [|exact H].
+    split; [exact Hrm1|]. split; [exact Hrm2|].
+    exists (mkcf p pre sep' post :: C), ch, fr.
+    split; [reflexivity|]. split; [exact Hnth|]. split; [exact Hsh2|]. split; [exact Hwc|].
+    cbn [cbounds csep cpost mkcf]. rewrite <- (hi_of_erase K V). exact Hrng.
+Qed.
+
+(* ------------------------------------------------------------------------------------------------ *)
 (* WantRoot (Insert / Update)                                                                         *)
 (* ------------------------------------------------------------------------------------------------ *)
 Lemma root_prep order (o : cop) r (t : itree) l0 fr tm0 (out : out) :
